@@ -10,7 +10,8 @@ HDR = ("from Reduino import target\nfrom Reduino.Actuators import Led, Servo, DC
        'target("COM3", upload=False)\nmon = SerialMonitor(9600)\n')
 
 SPECIAL = {"trigraph-??/": "a??/b", "percent-d": "100%d %s", "backslash-n-text": "a\\nb", "quote-pair": "say \"hi\" 'x'", "empty": "",
-           "long-80": "x" * 80, "leading-space": "  lead", "brace-pair": "{}{x}"}
+           "long-80": "x" * 80, "leading-space": "  lead", "brace-pair": "{}{x}",
+           "backslash-quote": 'dir \\"C:\\tmp\\"', "backslash-end": "tail\\", "quote-backslash": 'q"\\x', "double-backslash-quote": 'a\\\\"b'}
 
 
 def text_of(case: dict) -> str:
@@ -137,6 +138,9 @@ def scope_family() -> list[tuple[str, str, list]]:
     add("float-list-first-in-main-loop-branch", "n = 0\nwhile True:\n    n += 1\n    if n > 1:\n        fs = [0.5, 1.5]\n        mon.write(fs[0])\n")
     add("nested-list-file-scope-from-variables", "p = 1\nq = 2\ngrid2 = [[p, q], [q, p]]\nmon.write(grid2[0][1])\n")
     add("prologue-tuple-new-and-existing-used-in-loop", "total = 10\ntotal, last = 0, total\nwhile True:\n    mon.write(last + total)\n")
+    add("helper-rebinds-string-param", 'def shout(text):\n    text = text + "!"\n    return text\nmon.write(shout("hey"))\n')
+    add("helper-augments-string-param", 'def dots(text, n):\n    for i in range(n):\n        text += "."\n    return text\nmon.write(dots("wait", 3))\n')
+    add("helper-rebinds-number-params", "def clamp(v, lo, hi):\n    if v < lo:\n        v = lo\n    if v > hi:\n        v = hi\n    return v\nmon.write(clamp(300, 0, 255))\nmon.write(clamp(2.5, 0, 1))\n")
     add("helper-returns-list", "def mk():\n    return [1, 2, 3]\nv = mk()\nmon.write(v[1])\n")
     add("helper-returns-string", 'def tag(n):\n    return f"id:{n}"\nmon.write(tag(3))\n')
     add("button-handler", 'def hit():\n    mon.write("hit")\nbtn = Button(7, on_click=hit)\nwhile True:\n    mon.write(btn.is_pressed())\n')
@@ -162,7 +166,8 @@ def scope_family() -> list[tuple[str, str, list]]:
 
 def compile_job(job: dict) -> dict:
     """job = {"id", "src", "tags", "run": bool}.  Transpile + compile (+ run when an echo is to be checked)."""
-    r = fw.run_script({"src": job["src"], "passes": job.get("passes", 1), "keep_cpp": True, "syntax_only": not job.get("run", False)})
+    r = fw.run_script({"src": job["src"], "passes": job.get("passes", 1), "keep_cpp": True, "syntax_only": not job.get("run", False),
+                       "strict": True})         # C06's bar is standard C++: the unchanged tree needs no -fpermissive anywhere in the corpus
     out = {"id": job["id"], "tags": job.get("tags", []), "transpile": r["transpile"], "cls": r.get("cls"), "msg": r.get("msg"),
            "compile": {"ok": "ok", "fail": "fail"}.get(r.get("compile"), "none"), "stderr": (r.get("stderr") or "")[-600:] if r.get("compile") == "fail" else "",
            "cpp": r.get("cpp"), "events": r.get("events") if job.get("run") else None}
